@@ -1,10 +1,14 @@
 #!/bin/bash
-# usage: seedtest.sh <patch.diff> <tier> <Cxx> [Cxx…] : apply a seeded change to /repo, run the checks, undo it
+# usage: seedtest.sh <patch.diff> <tier> <Cxx> [Cxx…] : apply a seeded change to /repo, run the checks, undo it.
+# The evidence files and replays written while the change is applied are discarded (evidence is only ever
+# committed from runs on the unchanged tree).
 set -u
 patch=$1; tier=$2; shift 2
-git -C /repo apply "$patch" || { echo "patch does not apply"; exit 2; }
+bak=$(mktemp -d); cp -a /verif/evidence/. $bak/ 2>/dev/null
+git -C /repo apply "$patch" || { echo "patch does not apply"; rm -rf $bak; exit 2; }
 for p in "$@"; do
   out=$(cd /verif && ./check $p $tier 2>/dev/null | tail -3)
   echo "[$p] $out"
 done
 git -C /repo checkout -- . ; git -C /repo status --short | head -3
+rm -rf /verif/evidence; mkdir -p /verif/evidence; cp -a $bak/. /verif/evidence/; rm -rf $bak
